@@ -19,7 +19,9 @@
 //   K <kid>              r = cast(cur, kind)                -> U | OK <dump r>
 //   T <tid>              r = cast<dtype>(cur)               -> U | OK <dump r>
 // after every step both objects are dumped through their public API:
-//   X <dump cur> Y <dump oth>
+//   X <dump cur> Y <dump oth> [HALT]
+// HALT: the driver stops a history as soon as the current object is not self-consistent any more, a refused resize
+// changed the object or an accepted resize did not produce the requested shape (what follows would only be consequences).
 // dump := <etag> <dim> <shape vec> <member-shape vec> <strides vec> <size> <member-size|-1> <buflen> <safe 0/1>
 //         [<n> elems via a(i,j,k) ...] [<n> elems via packed index | 0] <nraw> raw buffer cells
 #ifndef VERIF_C20_HIST_HPP
@@ -141,6 +143,17 @@ namespace c20
         }
         r.safe = ok;
         return r;
+    }
+
+    // readable and product(shape) agrees with the buffer
+    template <typename A>
+    bool consistent(const A& a)
+    {
+        auto inf = info(a);
+        if (!inf.safe) return false;
+        auto n = vh::prod(inf.shape);
+        if constexpr (cls_v<A> == HYBRID) return n <= inf.buflen;
+        else return n == inf.buflen;
     }
 
     template <typename A>
@@ -392,13 +405,25 @@ namespace c20
         out.tok("X"); dump(out, *cur);
         out.tok("Y"); dump(out, *oth);
         auto nsteps = in.i();
+        std::string prevdump;
+        {
+            vh::Out tmp;
+            dump(tmp, *cur);
+            prevdump = tmp.buf;
+        }
         for (long long s = 0; s < nsteps && !in.bad; s++) {
             std::string op = in.s();
             out.tok("|");
             out.tok(op);
+            int resized = -1;   // 1 accepted, 0 refused
+            std::vector<long long> reqshape;
             if (op == "R" || op == "r") {
-                auto shape = in.vec();
-                do_resize(out, *cur, shape, op == "r");
+                reqshape = in.vec();
+                auto mark = out.buf.size();
+                do_resize(out, *cur, reqshape, op == "r");
+                auto r = out.buf.substr(mark);
+                if (r == " T" || r == " V") resized = 1;
+                else if (r == " F") resized = 0;
             } else if (op == "F") {
                 do_fill(out, *cur, in.i());
             } else if (op == "W") {
@@ -427,8 +452,18 @@ namespace c20
                 out.tok("ERR");
                 return;
             }
-            out.tok("X"); dump(out, *cur);
+            out.tok("X");
+            auto before = out.buf.size();
+            dump(out, *cur);
+            std::string curdump = out.buf.substr(before);
             out.tok("Y"); dump(out, *oth);
+            // monitor of the driver itself: once the object is no longer self-consistent (or a refused resize has
+            // changed it) further operations would only report consequences of that; stop the history here.
+            bool halt = !consistent(*cur);
+            if ((op == "R" || op == "r") && resized == 0 && curdump != prevdump) halt = true;
+            if ((op == "R" || op == "r") && resized == 1 && info(*cur).shape != reqshape) halt = true;
+            if (halt) { out.tok("HALT"); return; }
+            prevdump = curdump;
         }
     }
 } // namespace c20
